@@ -950,6 +950,57 @@ theorem trans_C16_startHead_is_startCall (c : BCfg) (s : St) (r : T_v2_batcher_c
   rw [trans_C16_startHead_v2]
   cases hp : s.phase <;> simp [step, phaseNum, hp]
 
+/-- v1 `Enqueue` after the admission checks: in error mode a full buffer (the channel holds `bufCap` operations)
+refuses the operation with `BufferFullError`, leaves `NeedsCapacity()` exactly as it was and puts nothing into the
+buffer; otherwise the operation is in the buffer and the demand has grown by exactly its cost (the repaired finding
+F1). In blocking mode the send is a plain channel send (it blocks while the buffer is full). -/
+theorem trans_C03_C15_C19_enqueueTail_v1 (t c held bufCap : Nat) (eof : Bool) (h : t + c < 4294967296) :
+    v1_enqueueTail { buffer := held, target := t } c eof bufCap =
+      (if eof = true ∧ ¬ held < bufCap then ({ buffer := held, target := t }, "BufferFullError")
+       else ({ buffer := (held + 1 : Nat), target := ((t + c : Nat) : Int) }, "")) := by
+  have hadd := trans_C03_C14_incTarget_add_v1 t c h
+  have hsub := trans_C03_C11_incTarget_sub_v1 (t + c) c (by omega) (by omega)
+  have eB : ((held : Int) < (bufCap : Int)) ↔ held < bufCap := by omega
+  have hsub' : v1_incTarget { target := (t : Int) + (c : Int) } (-(c : Int)) = { target := (t : Int) } := by
+    have := hsub
+    simp only [decTarget] at this
+    have e : (t + c - c : Nat) = t := by omega
+    have e2 : ((t + c : Nat) : Int) = (t : Int) + (c : Int) := by omega
+    rw [e2] at this
+    rw [this, e]
+  cases eof <;> by_cases hb : held < bufCap <;>
+    simp [v1_enqueueTail, hadd, hsub', hb, eB]
+
+/-! ### Batcher v2: what finishing a batch does (the tail of `processBatch`'s goroutine) -/
+
+theorem foldl_add_eq_sum (l : List Nat) (z : Int) :
+    (l.map (fun (n : Nat) => (n : Int))).foldl (fun total (x : Int) => total + x) z = z + ((l.sum : Nat) : Int) := by
+  induction l generalizing z with
+  | nil => simp
+  | cons a rest ih => simp only [List.map_cons, List.foldl_cons, List.sum_cons]; rw [ih]; omega
+
+/-- when a batch is done - its callback returned or its time limit passed - the demand drops by exactly the cost of
+its operations (never below zero) and exactly one slot is given back when a limit is set: the machine's `finish`
+label (`decTarget`, `slots - 1`), for every batch, demand and slot state -/
+theorem trans_C03_C10_C11_finishTail_v2 (t mcb slots : Nat) (costs : List Nat) (ht : t < 4294967296)
+    (hc : costs.sum < 4294967296) (hs : 0 < slots) :
+    v2_finishTail { maxConcurrentBatches := mcb, inflight := slots, target := t } (costs.map (fun (n : Nat) => (n : Int))) =
+      ({ maxConcurrentBatches := mcb, inflight := ((if mcb ≠ 0 then slots - 1 else slots : Nat) : Int),
+         target := ((decTarget t costs.sum : Nat) : Int) }, (costs.sum : Int)) := by
+  have hsum := foldl_add_eq_sum costs 0
+  have hsub := trans_C03_C11_incTarget_sub_v2 t costs.sum ht hc
+  have hrel := trans_C10_C11_releaseBatchSlot_v2 mcb slots hs
+  simp only [v2_finishTail, hsum, Int.zero_add]
+  rw [hsub, hrel]
+
+/-- v1: the same without slots -/
+theorem trans_C03_C11_finishTail_v1 (t : Nat) (costs : List Nat) (ht : t < 4294967296) (hc : costs.sum < 4294967296) :
+    v1_finishTail ⟨t⟩ (costs.map (fun (n : Nat) => (n : Int))) = (⟨((decTarget t costs.sum : Nat) : Int)⟩, (costs.sum : Int)) := by
+  have hsum := foldl_add_eq_sum costs 0
+  have hsub := trans_C03_C11_incTarget_sub_v1 t costs.sum ht hc
+  simp only [v1_finishTail, hsum, Int.zero_add]
+  rw [hsub]
+
 /-! ### non-vacuity: the translated functions on concrete values (also a readable trace of what they compute) -/
 
 example : v2_incTarget ⟨7⟩ 5 = ⟨12⟩ ∧ v2_incTarget ⟨7⟩ (-5) = ⟨2⟩ ∧ v2_incTarget ⟨7⟩ (-9) = ⟨0⟩ ∧ v2_incTarget ⟨7⟩ 0 = ⟨7⟩ := by decide
